@@ -28,6 +28,12 @@ structure Cfg where
   O : Oracle
   /-- `WithProtoToAny()` -/
   protoToAny : Bool := false
+  /-- `decoder.anyDepth`: the number of `Any` values this document is nested inside (309b762) -/
+  anyDepth : Nat := 0
+
+/-- `maxAnyDepth` (309b762): with `WithProtoToAny` an `Any` nested this deep is rejected instead of
+being expanded (the expansion costs time cubic in the nesting depth) -/
+def maxAnyDepth : Nat := 100
 
 /-- one property set being decoded -/
 structure PS where
@@ -374,10 +380,11 @@ def decAnyMembers (c : Cfg) (ftype : Option Bytes) (ms : PMembers) (acc : AnyAcc
           match ftype with
           | none => .ok none
           | some tn =>
+            if c.anyDepth ≥ maxAnyDepth then .err "Any values are nested too deeply" else
             match c.env.resolve tn with
             | none => .err "no type in registry"
             | some root =>
-              match decRootTree c root v with
+              match decRootTree { c with anyDepth := c.anyDepth + 1 } root v with
               | .ok fs => .ok (some (root, fs))
               | .err e => .err e
               | .panic w => .panic w
